@@ -156,23 +156,25 @@ package services
 //@   ensures error_leaves_state: [C16 C09] err != nil ==> state_unchanged()
 
 //@ func (*publisherServer).CreateTopic(s, ctx, req) (resp, err)
-//@   property C16 C12
+//@   property C16 C12 C17
 //@   uses tables notifyspec
 //@   nopanic
 //@   requires s != nil && s.client != nil && req != nil && tables_wf()
 //@   ensures created: [C12] err == nil ==> resp != nil && (exists t Id :: topic_named(t, req.Name) && !old(topics.exists(t))) && (forall t Id :: {topics.name(t)} !old(topic_named(t, req.Name)))
 //@   ensures duplicate_refused: [C12] (exists t Id :: old(topic_named(t, req.Name))) ==> err != nil
+//@   ensures labels_stored: [C17] err == nil ==> (exists t Id :: {topics.name(t)} topic_named(t, req.Name) && !old(topics.exists(t)) && !topics.labels$null(t) && topics.labels(t) == req.Labels)
 //@   ensures error_leaves_state: [C16 C09] err != nil ==> state_unchanged()
 
 // C12: Get succeeds exactly for live resources: it answers with the resource of that name when one is live, and with an
 // error otherwise (storage failures aside).
 //@ func (*publisherServer).GetTopic(s, ctx, req) (resp, err)
-//@   property C16 C12
+//@   property C16 C12 C17
 //@   uses tables notifyspec
 //@   nopanic
 //@   requires s != nil && s.client != nil && req != nil && tables_wf()
 //@   ensures error_leaves_state: [C16 C09] err != nil ==> state_unchanged()
 //@   ensures get_sound: [C12] err == nil ==> resp != nil && resp.Name == req.Topic && valid_topic_name(req.Topic) && (exists x Id :: topics.exists(x) && topics.deleted_at$null(x) && topics.name(x) == req.Topic)
+//@   ensures get_config: [C17] err == nil ==> (exists x Id :: {topics.name(x)} topic_named(x, req.Topic) && resp.Labels == ite(topics.labels$null(x), nil, topics.labels(x)))
 //@   ensures get_complete: [C12] valid_topic_name(req.Topic) && (exists x Id :: topics.exists(x) && topics.deleted_at$null(x) && topics.name(x) == req.Topic) && (forall x Id, y Id :: {topics.name(x), topics.name(y)} topics.exists(x) && topics.deleted_at$null(x) && topics.name(x) == req.Topic && topics.exists(y) && topics.deleted_at$null(y) && topics.name(y) == req.Topic ==> x == y) && !dbfailed() ==> err == nil
 
 // C17: UpdateTopic changes the labels of the named live topic iff "labels" is in the mask, and nothing else.
